@@ -240,7 +240,11 @@ fn monthday_matches(m: &MonthdayRange, d: NaiveDate) -> Tri {
             match year {
                 Some(yy) => {
                     if a > b {
-                        Tri::Unspec // `YYYY Mon1-Mon2` wrapping: filter and hint of the library disagree, nothing documents it
+                        // `YYYYMon1-Mon2` wrapping over New Year: that occurrence only, from Mon1 of YYYY to
+                        // Mon2 of YYYY+1 — the reading of every other start-year-only range (§2.3 date-range
+                        // row) and, since fix 41a39f6, of both `filter` and the hint. (Unspecified in the first
+                        // build, when the two disagreed; a round-7 agent's change went unnoticed through that.)
+                        Tri::from_bool((*yy as i32 == y && mo >= a) || (*yy as i32 + 1 == y && mo <= b))
                     } else {
                         Tri::from_bool(*yy as i32 == y && a <= mo && mo <= b)
                     }
@@ -551,7 +555,11 @@ fn combine(
                 prev_match = prev_match || curr_match;
             }
             (RuleOperator::Fallback, _) => {
-                let keep = prev_match && !acc.as_ref().map(|a| a.always_closed()).unwrap_or(false);
+                // "fallback rules apply only on days nothing else covered": a day on which the
+                // accumulated result has an open or unknown minute is covered — also when that minute
+                // is only the after-midnight part of yesterday's span (no earlier rule *matches* the
+                // day then; the first build had pinned `prev_match &&` here to the implementation)
+                let keep = acc.as_ref().map(|a| !a.always_closed()).unwrap_or(false);
                 if !keep {
                     prev_match = curr_match;
                     acc = curr_eval;
